@@ -35,6 +35,7 @@ func ContextForStoringResults(ctx context.Context) context.Context {
 }
 
 func ContextForPreparedStatement(ctx context.Context, values *ReplaceValues) context.Context {
+	values.outer = ctx.Value(StatementReplaceValuesContextKey)
 	return context.WithValue(ctx, StatementReplaceValuesContextKey, values)
 }
 
